@@ -1,4 +1,7 @@
 import Toq.Proofs.ExtGames
+import Toq.Proofs.ExtGamesRep
+import Toq.Proofs.ExtGamesClosed
+import Toq.Proofs.ExtGamesNpaQ
 import Toq.Properties.C07
 /-!
 # C09 — extended nonlocal games, quantum hedging, optimal cloning
@@ -17,6 +20,20 @@ primal `max/min Re tr(Q X)` s.t. `Tr_1 X = 1`, `X ⪰ 0`; dual `min tr Y` s.t. `
 `max tr Y` s.t. `1 ⊗ Y ⪯ Q`.  Weak duality holds for all `a, b, Q` and for every arrangement of the tensor
 factors (`hedging_weak_duality_reps`, which covers toqito's `Y₁X₁Y₂X₂` order for two repetitions), and the
 checkers certify primal-feasible points and dual bounds exactly.
+
+**Repetitions.**  Tensor products of primal-feasible points are primal feasible and their values multiply; for positive
+semidefinite `Q` tensor products of dual-feasible points are dual feasible (`hedging_reps_product_feasible`,
+`hedging_reps_dual_product`) — for every number of repetitions, in toqito's order of the tensor factors; hence the maximum is
+multiplicative whenever single-shot strong duality is certified (`hedging_reps_multiplicative`, `cloning_reps_multiplicative`),
+with the model-level form for two repetitions on toqito's arrays (`hedge2_product_bracket`, `clone2_product_bracket`).
+Closed forms: Wiesner's money `3/4` and `(3/4)ⁿ` (`wiesner_three_quarters`, `wiesner_n_fold`), rank-one operators in Schmidt form
+`(Σ aᵢ)²` and the Molina–Watrous value `cos²(π/8)`, `cos²ⁿ(π/8)` (`hedging_rank_one_closed_form`, `molina_watrous_cos_sq`,
+`molina_watrous_n_fold`).
+
+**Ordering.**  Deterministic (`ext_npa_sound_det`) and quantum commuting-measurement strategies (`ext_npa_sound_quantum`,
+`ext_npa_objective_quantum`) are feasible points of the NPA relaxation with referee blocks, every NPA-feasible assemblage is
+non-signalling (`ext_npa_le_ns`), higher levels are tighter (`ext_npa_level_mono`, `ext_npa_levels_chain`); product strategies in
+the product game of `ExtendedNonlocalGame(…, reps)` (`ext_reps_product_strategy`).
 -/
 
 open Matrix Kronecker
@@ -471,6 +488,294 @@ theorem cloning_weak_duality {m : Nat} (states : List (EMat m 1)) (probs : List 
 
 end Hedging
 
+/-! ## Parallel repetition of the hedging / cloning programs (all numbers of repetitions)
+
+`n` repetitions act on `n` copies of `ℂ^α ⊗ ℂ^β`; in toqito's order `Y₁X₁ Y₂X₂ …` an index is a digit sequence
+`k ↦ (i k, j k) : Fin n → α × β`, `Q₁ ⊗ … ⊗ Qₙ` is `piKron Q`, and the constraints `Tr_{Y₁…Yₙ} X = 1`,
+`π (1 ⊗ Y) πᴴ ⪰ Q` read the index through `regroup` (the subsystem permutation `_pperm` / `pperm` of the code).
+`HedgeFeasible (regroup X)` is "X is primal feasible for the `n`-fold program". -/
+
+section Reps
+variable {α β : Type*} [Fintype α] [Fintype β] [DecidableEq α] [DecidableEq β]
+
+/-- **Product strategies.**  For every `n`, all dimensions and all operators `Q_k`: if every `X_k` is primal feasible
+(`X_k ⪰ 0`, `Tr_1 X_k = 1`) then `X₁ ⊗ … ⊗ Xₙ` is primal feasible for the `n`-fold program, and its objective value is the
+product `∏ tr(Q_k X_k)`.  Hence `opt(n) ≥ ∏ opt_k` for the maximisation and `opt(n) ≤ ∏ opt_k` for the minimisation. -/
+theorem hedging_reps_product_feasible {n : ℕ} (Q X : Fin n → Matrix (α × β) (α × β) ℂ) (hX : ∀ k, HedgeFeasible (X k)) :
+    HedgeFeasible (regroup (piKron X)) ∧ (piKron Q * piKron X).trace = ∏ k, (Q k * X k).trace :=
+  ⟨hedge_primal_piKron X hX, trace_piKron_mul Q X⟩
+
+/-- **Products of dual-feasible points** (maximisation programs, positive semidefinite `Q_k` — probabilities of outcomes,
+the counterfeiting operator): `1 ⊗ Y_k ⪰ Q_k ⪰ 0` for every `k` implies `1 ⊗ (Y₁ ⊗ … ⊗ Yₙ) ⪰ Q₁ ⊗ … ⊗ Qₙ` in the order
+(outputs, inputs), and `tr(Y₁ ⊗ … ⊗ Yₙ) = ∏ tr Y_k`.  Hence `opt(n) ≤ ∏ dual_k`. -/
+theorem hedging_reps_dual_product {n : ℕ} (Q : Fin n → Matrix (α × β) (α × β) ℂ) (Y : Fin n → Matrix β β ℂ)
+    (hQ : ∀ k, (Q k).PosSemidef) (hY : ∀ k, (((1 : Matrix α α ℂ) ⊗ₖ Y k) - Q k).PosSemidef) :
+    (((1 : Matrix (Fin n → α) (Fin n → α) ℂ) ⊗ₖ piKron Y) - regroup (piKron Q)).PosSemidef ∧
+      (piKron Y).trace = ∏ k, (Y k).trace :=
+  ⟨hedge_maxdual_piKron Q Y hQ hY, piKron_trace Y⟩
+
+/-- **The maximal probability is multiplicative under independent repetitions whenever single-shot strong duality is
+certified.**  For every `n`, positive semidefinite `Q_k`, primal-feasible `X_k` and Hermitian dual-feasible `Y_k` with
+`Re tr(Q_k X_k) = Re tr Y_k = v_k` (the optimum of factor `k`): the `n`-fold program has a feasible point of value `∏ v_k`
+and no feasible point of larger value — its optimum is `∏ v_k` (`v^n` for `n` copies of one instance). -/
+theorem hedging_reps_multiplicative {n : ℕ} (Q X : Fin n → Matrix (α × β) (α × β) ℂ) (Y : Fin n → Matrix β β ℂ)
+    (v : Fin n → ℝ) (hQ : ∀ k, (Q k).PosSemidef) (hX : ∀ k, HedgeFeasible (X k)) (hYh : ∀ k, (Y k).IsHermitian)
+    (hY : ∀ k, (((1 : Matrix α α ℂ) ⊗ₖ Y k) - Q k).PosSemidef)
+    (hprimal : ∀ k, (Q k * X k).trace.re = v k) (hdual : ∀ k, (Y k).trace.re = v k) :
+    (∃ X' : Matrix (Fin n → α × β) (Fin n → α × β) ℂ, HedgeFeasible (regroup X') ∧
+        (piKron Q * X').trace.re = ∏ k, v k) ∧
+      ∀ X' : Matrix (Fin n → α × β) (Fin n → α × β) ℂ, HedgeFeasible (regroup X') →
+        (piKron Q * X').trace.re ≤ ∏ k, v k := by
+  obtain ⟨h1, h2, -, h4⟩ := hedge_piKron_bracket Q X Y hQ hX hYh hY
+  refine ⟨⟨piKron X, h1, ?_⟩, fun X' hX' => ?_⟩
+  · rw [h2]; exact Finset.prod_congr rfl fun k _ => hprimal k
+  · have := h4 X' hX'
+    rwa [Finset.prod_congr rfl fun k _ => hdual k] at this
+
+/-- **Minimisation programs: products of dual points with `Y_k ⪰ 0`.**  `Q_k ⪰ 1 ⊗ Y_k ⪰ 0` implies
+`Q₁ ⊗ … ⊗ Qₙ ⪰ 1 ⊗ (Y₁ ⊗ … ⊗ Yₙ)`.  Without `Y_k ⪰ 0` the product of dual points is not dual feasible and the minimum is NOT
+multiplicative: this is quantum hedging (Molina–Watrous: minimum `sin²(π/8)` for one game, `0` for two). -/
+theorem hedging_min_reps_dual_product {n : ℕ} (Q : Fin n → Matrix (α × β) (α × β) ℂ) (Y : Fin n → Matrix β β ℂ)
+    (hY0 : ∀ k, (Y k).PosSemidef) (hY : ∀ k, (Q k - ((1 : Matrix α α ℂ) ⊗ₖ Y k)).PosSemidef) :
+    (regroup (piKron Q) - ((1 : Matrix (Fin n → α) (Fin n → α) ℂ) ⊗ₖ piKron Y)).PosSemidef :=
+  hedge_mindual_piKron Q Y hY0 hY
+
+end Reps
+
+/-- **Counterfeiting: `n`-fold value = (single-shot value)ⁿ.**  For every ensemble (states of dimension `m`, non-negative
+priors; `Q = cloneQ`) and every certified single-shot optimum `v` (a cloning channel `X` and a Hermitian `Y` with
+`1 ⊗ Y ⪰ Q`, `Re tr(Q X) = Re tr Y = v`), the attack on `n` independent banknotes succeeds with probability exactly `vⁿ`:
+`X^{⊗n}` is feasible for the `n`-fold program with value `vⁿ` and no feasible point does better — for every `n`. -/
+theorem cloning_reps_multiplicative {m : Nat} (states : List (EMat m 1)) (probs : List Rat) (hp : ∀ q ∈ probs, 0 ≤ q)
+    (X : Matrix (Fin (m * m) × Fin m) (Fin (m * m) × Fin m) ℂ) (Y : Matrix (Fin m) (Fin m) ℂ) (v : ℝ)
+    (hX : HedgeFeasible X) (hYh : Y.IsHermitian)
+    (hY : (((1 : Matrix (Fin (m * m)) (Fin (m * m)) ℂ) ⊗ₖ Y) - opOf (cloneQ states probs)).PosSemidef)
+    (hv1 : (opOf (cloneQ states probs) * X).trace.re = v) (hv2 : Y.trace.re = v) (n : ℕ) :
+    (∃ X' : Matrix (Fin n → Fin (m * m) × Fin m) (Fin n → Fin (m * m) × Fin m) ℂ, HedgeFeasible (regroup X') ∧
+        (piKron (fun _ : Fin n => opOf (cloneQ states probs)) * X').trace.re = v ^ n) ∧
+      ∀ X' : Matrix (Fin n → Fin (m * m) × Fin m) (Fin n → Fin (m * m) × Fin m) ℂ, HedgeFeasible (regroup X') →
+        (piKron (fun _ : Fin n => opOf (cloneQ states probs)) * X').trace.re ≤ v ^ n := by
+  have hQ : (opOf (cloneQ states probs)).PosSemidef := (unflat_psd _).mpr (cloneQ_psd states probs hp)
+  have h := hedging_reps_multiplicative (fun _ : Fin n => opOf (cloneQ states probs)) (fun _ => X) (fun _ => Y)
+    (fun _ => v) (fun _ => hQ) (fun _ => hX) (fun _ => hYh) (fun _ => hY) (fun _ => hv1) (fun _ => hv2)
+  simpa using h
+
+/-- **The permutations and traced systems the code builds are the stated reshuffles, for every number `n ≥ 2` of repetitions.**
+`QuantumHedging.__init__`: `perm = [*sum(zip(range(n), range(n, n²)), ())]` is the interleaving — position `2k` of
+`Y₁X₁…YₙXₙ` holds system `k` of `Y₁…YₙX₁…Xₙ` and position `2k+1` holds system `n+k` — and `_sys` is the set of even positions
+(the `Y_k`); `optimal_clone`: position `i·n + j` of `Y₁…YₙZ₁…ZₙX₁…Xₙ` holds system `i + 3j` of `Y₁Z₁X₁…YₙZₙXₙ`, and the primal
+traces the positions `≢ 2 (mod 3)` (the `Y_k`, `Z_k`).  These are the maps `splitIdx` / `regroup` of the repetition theorems. -/
+theorem pperm_is_interleaving (n : ℕ) (hn : 2 ≤ n) :
+    (∀ k, k < n → (hedgePerm n)[2 * k]? = some k ∧ (hedgePerm n)[2 * k + 1]? = some (n + k)) ∧
+      (∀ e, e ∈ hedgeSys n ↔ e < 2 * n ∧ e % 2 = 0) ∧
+      (∀ i j, i < 3 → j < n → (clonePerm n)[i * n + j]? = some (i + 3 * j)) ∧
+      (∀ e, e ∈ cloneSys n ↔ e + 1 < 3 * n ∧ e % 3 ≠ 2) :=
+  ⟨fun k hk => hedgePerm_getElem n hn k hk, mem_hedgeSys n, fun i j hi hj => clonePerm_getElem n i j hi hj, mem_cloneSys n⟩
+
+/-- **Real ensembles: `Q` is invariant under exchanging the systems `Z` and `X`.**  `optimal_clone`'s primal program for two
+repetitions pairs the objective operator `pperm (Q ⊗ Q) ppermᴴ` (order `Y₁Y₂Z₁Z₂X₁X₂`) with the constraint
+`partial_trace(X, [0, 1, 3, 4], [2]*6) == 1`, which in that order keeps the positions of `Z₁` and `X₂`: it is the correct program
+with `Z₁` and `X₁` exchanged.  The function accepts real state vectors only, and for those the exchange leaves `Q` — hence the
+optimum — unchanged: `Q[(i₁ i₃ i₂), (j₁ j₃ j₂)] = Q[(i₁ i₂ i₃), (j₁ j₂ j₃)]` for every dimension `m`, every list of real states and all
+priors.  (The harness stream `prog_embedding` plugs the certified points with the two positions exchanged.) -/
+theorem cloneQ_exchange_invariant_real {m : Nat} (states : List (EMat m 1)) (probs : List Rat)
+    (hreal : ∀ s ∈ states, ∀ i, (s.get i ⟨0, Nat.one_pos⟩).im = 0) (p q : Fin (m * m * m)) :
+    (cloneQ states probs).toM (swap23 p) (swap23 q) = (cloneQ states probs).toM p q :=
+  cloneQ_swap23_real states probs hreal p q
+
+/-! ### Two repetitions on the operators as toqito stores them (model level) -/
+
+section Reps2
+variable {kq kp kd : Nat}
+
+/-- toqito's order `Y₁X₁Y₂X₂` read through the checked permutation `hedgeSigma2` is the order (outputs `Y₁Y₂`, inputs
+`X₁X₂`) of `np.kron(Q₁, Q₂)` -/
+theorem hedgeSigma2_isRepArrangement :
+    IsRepArrangement (a₁ := 2) (b₁ := 2) (a₂ := 2) (b₂ := 2) (arrangement hedgeSigma2 hedgeSigma2_isSurj) := by
+  intro y x
+  show hedgeSigma2 (finProdFinEquiv (y, x)) = _
+  revert y x
+  decide
+
+/-- exchange of the two middle bits of a 4-bit label: `(y₁ z₁ y₂ z₂) ↔ (y₁ y₂ z₁ z₂)` -/
+def swapMid (p : Fin (4 * 4)) : Fin (4 * 4) :=
+  ⟨(8 * bit 4 p.val 0 + 4 * bit 4 p.val 2 + 2 * bit 4 p.val 1 + bit 4 p.val 3) % 16, Nat.mod_lt _ (by decide)⟩
+
+theorem swapMid_involutive : Function.Involutive swapMid := by
+  have h : ∀ p : Fin (4 * 4), swapMid (swapMid p) = p := by decide
+  exact h
+
+/-- the order `Y₁Y₂Z₁Z₂ X₁X₂` produced by the code's `permutation_operator(2, [0, 3, 1, 4, 2, 5])`, read through the
+checked permutation `cloneSigma2`, is — up to the order of the output systems, which the constraints do not see — the order
+(outputs `(Y₁Z₁)(Y₂Z₂)`, inputs `X₁X₂`) of `np.kron(Q₁, Q₂)` -/
+theorem cloneSigma2_isRepArrangement :
+    IsRepArrangement (a₁ := 4) (b₁ := 2) (a₂ := 4) (b₂ := 2)
+      ((Equiv.prodCongr swapMid_involutive.toPerm (Equiv.refl (Fin (2 * 2)))).trans
+        (arrangement cloneSigma2 cloneSigma2_isSurj)) := by
+  intro y x
+  show cloneSigma2 (finProdFinEquiv (swapMid y, x)) = _
+  revert y x
+  decide
+
+/-- **Hedging, two repetitions, on toqito's arrays.**  Let `Q₁, Q₂` be `4 × 4` operators certified positive semidefinite,
+with accepted single-shot certificates: primal `X_i` of value `v_i`, dual `Y_i` of value `w_i`.  For `Q = np.kron(Q₁, Q₂)`
+(the argument of `QuantumHedging(Q, 2)`, order `Y₁X₁Y₂X₂`): `np.kron(X₁, X₂)` is feasible for the two-fold primal program with
+value `v₁ v₂`, and every feasible point has value at most `w₁ w₂`.  (With `v_i = w_i`: the two-fold optimum is the product.) -/
+theorem hedge2_product_bracket (Q₁ X₁ Q₂ X₂ : EMat (2 * 2) (2 * 2)) (Y₁ Y₂ : EMat 2 2)
+    (LQ₁ LQ₂ : EMat (2 * 2) kq) (L₁ L₂ : EMat (2 * 2) kp) (L₁' L₂' : EMat (2 * 2) kd) (v₁ w₁ v₂ w₂ : Rat)
+    (hQ₁ : psdCert Q₁ LQ₁ = true) (hQ₂ : psdCert Q₂ LQ₂ = true)
+    (hp₁ : checkHedgeMaxPrimal 2 2 Q₁ X₁ L₁ = some v₁) (hd₁ : checkHedgeMaxDual 2 2 Q₁ Y₁ L₁' = some w₁)
+    (hp₂ : checkHedgeMaxPrimal 2 2 Q₂ X₂ L₂ = some v₂) (hd₂ : checkHedgeMaxDual 2 2 Q₂ Y₂ L₂' = some w₂) :
+    HedgeFeasible ((kronE X₁ X₂).toM.submatrix (arrangement hedgeSigma2 hedgeSigma2_isSurj)
+        (arrangement hedgeSigma2 hedgeSigma2_isSurj)) ∧
+      ((kronE Q₁ Q₂).toM * (kronE X₁ X₂).toM).trace.re = (v₁ : ℝ) * (v₂ : ℝ) ∧
+      ∀ X : Matrix (Fin (4 * 4)) (Fin (4 * 4)) ℂ,
+        HedgeFeasible (X.submatrix (arrangement hedgeSigma2 hedgeSigma2_isSurj) (arrangement hedgeSigma2 hedgeSigma2_isSurj)) →
+        ((kronE Q₁ Q₂).toM * X).trace.re ≤ (w₁ : ℝ) * (w₂ : ℝ) := by
+  obtain ⟨-, hf₁, hv₁⟩ := checkHedgePrimal_sound Q₁ X₁ L₁ v₁ hp₁
+  obtain ⟨-, hf₂, hv₂⟩ := checkHedgePrimal_sound Q₂ X₂ L₂ v₂ hp₂
+  obtain ⟨hh₁, hs₁, hw₁⟩ := Toq.ExtGames.checkHedgeMaxDual_sound Q₁ Y₁ L₁' w₁ hd₁
+  obtain ⟨hh₂, hs₂, hw₂⟩ := Toq.ExtGames.checkHedgeMaxDual_sound Q₂ Y₂ L₂' w₂ hd₂
+  obtain ⟨g1, g2, -, -, g5⟩ := rep2_flat_bracket (a₁ := 2) (b₁ := 2) (a₂ := 2) (b₂ := 2)
+    (arrangement hedgeSigma2 hedgeSigma2_isSurj) hedgeSigma2_isRepArrangement Q₁.toM X₁.toM Y₁.toM Q₂.toM X₂.toM Y₂.toM
+    (psdCert_sound _ _ hQ₁) (psdCert_sound _ _ hQ₂) hf₁ hf₂ hh₁ hh₂ hs₁ hs₂
+  unfold unflat at hv₁ hv₂
+  rw [trace_mul_submatrix_equiv] at hv₁ hv₂
+  refine ⟨?_, ?_, fun X hX => ?_⟩
+  · rw [toM_kronE]; exact g1
+  · rw [toM_kronE, toM_kronE, g2, hv₁, hv₂]
+  · rw [toM_kronE, ← hw₁, ← hw₂]; exact g5 X hX
+
+/-- **Cloning, two repetitions, on toqito's arrays** (`Q = tensor(Q₁, 2)`-style product `np.kron(Q₁, Q₂)` in the order
+`Y₁Z₁X₁Y₂Z₂X₂`, read through `cloneSigma2`): same statement as `hedge2_product_bracket` with `a = 4`, `b = 2`. -/
+theorem clone2_product_bracket (Q₁ X₁ Q₂ X₂ : EMat (4 * 2) (4 * 2)) (Y₁ Y₂ : EMat 2 2)
+    (LQ₁ LQ₂ : EMat (4 * 2) kq) (L₁ L₂ : EMat (4 * 2) kp) (L₁' L₂' : EMat (4 * 2) kd) (v₁ w₁ v₂ w₂ : Rat)
+    (hQ₁ : psdCert Q₁ LQ₁ = true) (hQ₂ : psdCert Q₂ LQ₂ = true)
+    (hp₁ : checkHedgeMaxPrimal 4 2 Q₁ X₁ L₁ = some v₁) (hd₁ : checkHedgeMaxDual 4 2 Q₁ Y₁ L₁' = some w₁)
+    (hp₂ : checkHedgeMaxPrimal 4 2 Q₂ X₂ L₂ = some v₂) (hd₂ : checkHedgeMaxDual 4 2 Q₂ Y₂ L₂' = some w₂) :
+    HedgeFeasible ((kronE X₁ X₂).toM.submatrix (arrangement cloneSigma2 cloneSigma2_isSurj)
+        (arrangement cloneSigma2 cloneSigma2_isSurj)) ∧
+      ((kronE Q₁ Q₂).toM * (kronE X₁ X₂).toM).trace.re = (v₁ : ℝ) * (v₂ : ℝ) ∧
+      ∀ X : Matrix (Fin (16 * 4)) (Fin (16 * 4)) ℂ,
+        HedgeFeasible (X.submatrix (arrangement cloneSigma2 cloneSigma2_isSurj) (arrangement cloneSigma2 cloneSigma2_isSurj)) →
+        ((kronE Q₁ Q₂).toM * X).trace.re ≤ (w₁ : ℝ) * (w₂ : ℝ) := by
+  obtain ⟨-, hf₁, hv₁⟩ := checkHedgePrimal_sound Q₁ X₁ L₁ v₁ hp₁
+  obtain ⟨-, hf₂, hv₂⟩ := checkHedgePrimal_sound Q₂ X₂ L₂ v₂ hp₂
+  obtain ⟨hh₁, hs₁, hw₁⟩ := Toq.ExtGames.checkHedgeMaxDual_sound Q₁ Y₁ L₁' w₁ hd₁
+  obtain ⟨hh₂, hs₂, hw₂⟩ := Toq.ExtGames.checkHedgeMaxDual_sound Q₂ Y₂ L₂' w₂ hd₂
+  obtain ⟨g1, g2, -, -, g5⟩ := rep2_flat_bracket_perm (a₁ := 4) (b₁ := 2) (a₂ := 4) (b₂ := 2)
+    (arrangement cloneSigma2 cloneSigma2_isSurj) swapMid_involutive.toPerm cloneSigma2_isRepArrangement
+    Q₁.toM X₁.toM Y₁.toM Q₂.toM X₂.toM Y₂.toM
+    (psdCert_sound _ _ hQ₁) (psdCert_sound _ _ hQ₂) hf₁ hf₂ hh₁ hh₂ hs₁ hs₂
+  unfold unflat at hv₁ hv₂
+  rw [trace_mul_submatrix_equiv] at hv₁ hv₂
+  refine ⟨?_, ?_, fun X hX => ?_⟩
+  · rw [toM_kronE]; exact g1
+  · rw [toM_kronE, toM_kronE, g2, hv₁, hv₂]
+  · rw [toM_kronE, ← hw₁, ← hw₂]; exact g5 X hX
+
+end Reps2
+
+/-! ## Closed forms -/
+
+section Closed
+
+/-- **Wiesner's quantum money: the optimal counterfeiting probability is exactly 3/4.**  For the ensemble
+`{|0⟩, |1⟩, |+⟩, |−⟩}` with uniform priors (`wiesnerQ` is its operator `Q = cloneQ …`, see `Toq/Proofs/ExtGamesClosed.lean`)
+there is a cloning channel of success probability `3/4` (the Molina–Vidick–Watrous cloner, exact rational Choi operator) and
+no channel does better (dual point `Y = (3/8)·1`; exact certificate). -/
+theorem wiesner_three_quarters :
+    (∃ X : Matrix (Fin 4 × Fin 2) (Fin 4 × Fin 2) ℂ, HedgeFeasible X ∧ (opOf wiesnerQ * X).trace.re = 3 / 4) ∧
+      ∀ X : Matrix (Fin 4 × Fin 2) (Fin 4 × Fin 2) ℂ, HedgeFeasible X → (opOf wiesnerQ * X).trace.re ≤ 3 / 4 := by
+  constructor
+  · obtain ⟨X, hX, hv⟩ := checkHedgeMaxPrimal_sound wiesnerQ wiesnerX wiesnerLX (3 / 4) wiesner_primal_accepts
+    exact ⟨X, hX, by rw [hv]; norm_num⟩
+  · intro X hX
+    have h := checkHedgeMaxDual_sound wiesnerQ wiesnerY wiesnerLY (3 / 4) wiesner_dual_accepts X hX
+    refine h.trans (le_of_eq ?_)
+    norm_num
+
+/-- **`n` Wiesner banknotes: exactly `(3/4)ⁿ`, for every `n`.**  The `n`-fold counterfeiting program
+(operator `Q^{⊗n}` in toqito's order `Y₁Z₁X₁ … YₙZₙXₙ`) has a feasible point of value `(3/4)ⁿ` and none of larger value. -/
+theorem wiesner_n_fold (n : ℕ) :
+    (∃ X' : Matrix (Fin n → Fin 4 × Fin 2) (Fin n → Fin 4 × Fin 2) ℂ, HedgeFeasible (regroup X') ∧
+        (piKron (fun _ : Fin n => opOf wiesnerQ) * X').trace.re = (3 / 4 : ℝ) ^ n) ∧
+      ∀ X' : Matrix (Fin n → Fin 4 × Fin 2) (Fin n → Fin 4 × Fin 2) ℂ, HedgeFeasible (regroup X') →
+        (piKron (fun _ : Fin n => opOf wiesnerQ) * X').trace.re ≤ (3 / 4 : ℝ) ^ n := by
+  obtain ⟨-, hf, hv⟩ := checkHedgePrimal_sound wiesnerQ wiesnerX wiesnerLX (3 / 4) wiesner_primal_accepts
+  obtain ⟨hYh, hY, hw⟩ := Toq.ExtGames.checkHedgeMaxDual_sound wiesnerQ wiesnerY wiesnerLY (3 / 4) wiesner_dual_accepts
+  have hQ : (opOf wiesnerQ).PosSemidef :=
+    (unflat_psd _).mpr (cloneQ_psd wiesnerStates wiesnerProbs (by
+      intro q hq
+      simp only [wiesnerProbs, List.mem_cons, List.not_mem_nil, or_false] at hq
+      rcases hq with rfl | rfl | rfl | rfl <;> norm_num))
+  have h := hedging_reps_multiplicative (fun _ : Fin n => opOf wiesnerQ) (fun _ => unflat wiesnerX.toM)
+    (fun _ => wiesnerY.toM) (fun _ => (3 / 4 : ℝ)) (fun _ => hQ) (fun _ => hf) (fun _ => hYh) (fun _ => hY)
+    (fun _ => by rw [show opOf wiesnerQ = unflat wiesnerQ.toM from rfl, hv]; norm_num) (fun _ => by rw [hw]; norm_num)
+  simpa only [Finset.prod_const, Finset.card_univ, Fintype.card_fin] using h
+
+/-- **Rank-one operators in Schmidt form.**  For every dimension `m` and every `a ≥ 0`, with `Q = |w⟩⟨w|`,
+`w = Σ_i a_i |i i⟩`: the maximum of `⟨Q, X⟩` over `X ⪰ 0`, `Tr_1 X = 1` is exactly `(Σ_i a_i)²` — attained at the Choi operator of
+the identity channel, bounded by the dual point `Y = (Σ a)·diag(a)` (weighted Cauchy–Schwarz). -/
+theorem hedging_rank_one_closed_form {m : ℕ} (a : Fin m → ℝ) (ha : ∀ i, 0 ≤ a i) :
+    (∃ X : Matrix (Fin m × Fin m) (Fin m × Fin m) ℂ, HedgeFeasible X ∧ (rankOneQ a * X).trace.re = (∑ i, a i) ^ 2) ∧
+      ∀ X : Matrix (Fin m × Fin m) (Fin m × Fin m) ℂ, HedgeFeasible X → (rankOneQ a * X).trace.re ≤ (∑ i, a i) ^ 2 := by
+  constructor
+  · exact ⟨_, idChoi_feasible, by rw [rankOne_value, Complex.ofReal_re]⟩
+  · intro X hX
+    have h := hedging_weak_duality (rankOneQ a) X (rankOneY a) hX (rankOne_dual_psd a ha)
+    rwa [rankOneY_trace, Complex.ofReal_re] at h
+
+/-- **Molina–Watrous: the single-shot optimum is `cos²(π/8)`.**  For `Q = q₁ = w wᵀ`,
+`w = cos(π/8)/√2 |00⟩ + sin(π/8)/√2 |11⟩` (the operator of the docstring of `QuantumHedging`, `α = 1/√2`, `θ = π/8`) the
+program `max_prob_outcome_a_primal` / `_dual` has optimum exactly `cos²(π/8)`. -/
+theorem molina_watrous_cos_sq :
+    (∃ X : Matrix (Fin 2 × Fin 2) (Fin 2 × Fin 2) ℂ, HedgeFeasible X ∧
+        (rankOneQ mwCoeff * X).trace.re = Real.cos (Real.pi / 8) ^ 2) ∧
+      ∀ X : Matrix (Fin 2 × Fin 2) (Fin 2 × Fin 2) ℂ, HedgeFeasible X →
+        (rankOneQ mwCoeff * X).trace.re ≤ Real.cos (Real.pi / 8) ^ 2 := by
+  have h := hedging_rank_one_closed_form mwCoeff mwCoeff_nonneg
+  rwa [mwCoeff_sum_sq] at h
+
+/-- **Molina–Watrous, `n` repetitions: `cos²ⁿ(π/8)` for every `n`** (the probability of winning ALL of `n` games cannot be
+hedged). -/
+theorem molina_watrous_n_fold (n : ℕ) :
+    (∃ X' : Matrix (Fin n → Fin 2 × Fin 2) (Fin n → Fin 2 × Fin 2) ℂ, HedgeFeasible (regroup X') ∧
+        (piKron (fun _ : Fin n => rankOneQ mwCoeff) * X').trace.re = (Real.cos (Real.pi / 8) ^ 2) ^ n) ∧
+      ∀ X' : Matrix (Fin n → Fin 2 × Fin 2) (Fin n → Fin 2 × Fin 2) ℂ, HedgeFeasible (regroup X') →
+        (piKron (fun _ : Fin n => rankOneQ mwCoeff) * X').trace.re ≤ (Real.cos (Real.pi / 8) ^ 2) ^ n := by
+  have hY : (rankOneY mwCoeff).IsHermitian := by
+    rw [rankOneY, Matrix.IsHermitian, Matrix.diagonal_conjTranspose]
+    congr 1; funext i; simp
+  have h := hedging_reps_multiplicative (fun _ : Fin n => rankOneQ mwCoeff) (fun _ => rankOneQ fun _ => 1)
+    (fun _ => rankOneY mwCoeff) (fun _ => Real.cos (Real.pi / 8) ^ 2)
+    (fun _ => Matrix.posSemidef_vecMulVec_self_star _) (fun _ => idChoi_feasible) (fun _ => hY)
+    (fun _ => rankOne_dual_psd mwCoeff mwCoeff_nonneg)
+    (fun _ => by rw [rankOne_value, Complex.ofReal_re, mwCoeff_sum_sq])
+    (fun _ => by rw [rankOneY_trace, Complex.ofReal_re, mwCoeff_sum_sq])
+  simpa only [Finset.prod_const, Finset.card_univ, Fintype.card_fin] using h
+
+/-- **Molina–Watrous: the outcome `q₁` can be avoided with certainty** (`min_prob_outcome_a = 0` for `Q = q₁`, and for every
+`Q = |w⟩⟨w|`, `w = a₀|00⟩ + a₁|11⟩`): the channel that answers the flipped basis state is feasible with value `0`, and no
+feasible point has a negative value. -/
+theorem molina_watrous_min_zero (a : Fin 2 → ℝ) :
+    (∃ X : Matrix (Fin 2 × Fin 2) (Fin 2 × Fin 2) ℂ, HedgeFeasible X ∧ (rankOneQ a * X).trace.re = 0) ∧
+      ∀ X : Matrix (Fin 2 × Fin 2) (Fin 2 × Fin 2) ℂ, HedgeFeasible X → 0 ≤ (rankOneQ a * X).trace.re := by
+  refine ⟨⟨Matrix.diagonal fun p : Fin 2 × Fin 2 => if p.1 = p.2 then 0 else 1, ⟨?_, ?_⟩, ?_⟩,
+    fun X hX => psd_trace_mul_nonneg (Matrix.posSemidef_vecMulVec_self_star _) hX.1⟩
+  · refine Matrix.PosSemidef.diagonal fun p => ?_
+    split <;> simp
+  · ext j j'
+    fin_cases j <;> fin_cases j' <;> simp [ptrace1, Fin.sum_univ_two]
+  · have h : rankOneQ a * (Matrix.diagonal fun p : Fin 2 × Fin 2 => if p.1 = p.2 then (0 : ℂ) else 1) = 0 := by
+      ext p q
+      rw [Matrix.mul_diagonal]
+      simp only [rankOneQ, Matrix.vecMulVec_apply, star_diagVec, diagVec, Matrix.zero_apply]
+      by_cases hq : q.1 = q.2 <;> simp [hq]
+    rw [h]; simp
+
+end Closed
+
 /-! ## Feasibility embedding: unentangled strategies are feasible points of the NPA relaxation for extended games
 
 `commuting_measurement_value_upper_bound(k)` calls `npa_constraints(mat, k, referee_dim = d)`: the moment matrix has
@@ -632,6 +937,126 @@ example : IsDensity (((1 / 2 : ℝ) : ℂ) • (1 : Matrix (Fin 2) (Fin 2) ℂ))
 
 end ExtEmbedding
 
+/-! ## Quantum (commuting-measurement) strategies of an extended game: quantum ≤ NPA(k) ≤ non-signalling, level monotonicity
+
+`ExtQStrategy d D ao bo ai bi`: projective measurements `A x a`, `B y b` on one space `ℂ^D`, every operator of Alice commuting
+with every operator of Bob, and a unit vector `u = Σ_p |p⟩ ⊗ ψ_p ∈ ℂ^d ⊗ ℂ^D` shared with the referee.  Its point of the
+relaxation: assemblage `K(a,b|x,y)[p,q] = ⟨ψ_q| A B |ψ_p⟩`, moment blocks `R[i,j][p,q] = ⟨W_j ψ_q, W_i ψ_p⟩`, referee state
+`ρ = K`-block of the identity.  (Helper lemmas: `Toq/Proofs/ExtGamesNpaQ.lean`.) -/
+
+section ExtQuantum
+open Toq.Npa Toq.Games
+variable {d : Nat}
+
+/-- **Every constraint that `npa_constraints(…, referee_dim = d)` emits holds at every commuting-measurement strategy** — every
+referee dimension `d`, every dimension `D` of the players' space, all alphabet sizes, every level (integer or `'1+ab…'`).  The
+flat moment matrix (layout `r_var[i::dim, j::dim]` = block `(i, j)`) is positive semidefinite (a Gram matrix), every block equation
+of the generator holds, every assemblage block is Hermitian and positive semidefinite, and the referee's state is a density
+operator.  Hence the value of every quantum strategy — in particular every value returned by `quantum_value_lower_bound` — is at
+most the optimum of `commuting_measurement_value_upper_bound(k)` in the model.  Mirror of `Toq.C07.npa_sound_quantum`; rests on
+`SymRep.reduceFuel_op` (`_reduce` is sound for commuting projectors). -/
+theorem ext_npa_sound_quantum (D ao bo ai bi : Nat) (hai : 0 < ai) (hbi : 0 < bi) (k : LevelArg) (hwf : LevelWF k)
+    (base : Nat) (conf : List (Nat × Nat)) (hk : levelSpec k = some (base, conf)) (S : ExtQStrategy d D ao bo ai bi) :
+    let words := genWords base conf ao ai bo bi
+    (∀ c ∈ npaConstraints ao bo ai bi base conf, Sat (S.Rflat words).PosSemidef ao bo (S.R words) S.K c) ∧
+      (S.Rflat words).PosSemidef ∧
+      (∀ (i j : Fin words.length) (p q : Fin d),
+        S.Rflat words (finProdFinEquiv (p, i)) (finProdFinEquiv (q, j)) = (S.R words i j).mat p q) ∧
+      (∀ a b x y, (S.K a b x y).mat.IsHermitian ∧ (S.K a b x y).mat.PosSemidef) ∧
+      IsDensity S.rho :=
+  ext_npa_sound_quantum_blocks d D ao bo ai bi hai hbi k hwf base conf hk S
+
+/-- **The objective of the relaxation at the point of a quantum strategy is the strategy's winning probability**:
+`Re Σ_{a,b,x,y} π(x,y) tr(P(a,b,x,y)ᴴ K(a,b|x,y)) = Σ π(x,y) Re ⟨u| P(a,b,x,y)ᴴ ⊗ A_a^x B_b^y |u⟩` (loop order of the code), and
+`Pᴴ = P` for Hermitian referee operators. -/
+theorem ext_npa_objective_quantum {D ao bo ai bi : Nat} (S : ExtQStrategy d D ao bo ai bi)
+    (P : Nat → Nat → Nat → Nat → Matrix (Fin d) (Fin d) ℂ) (π : Nat → Nat → ℝ) :
+    ((sumN ao fun a => sumN bo fun b => sumN ai fun x => sumN bi fun y =>
+        (π x y : ℂ) * ((P a b x y)ᴴ * (S.K a b x y).mat).trace).re
+      = sumN ao fun a => sumN bo fun b => sumN ai fun x => sumN bi fun y =>
+        π x y * (star S.uvec ⬝ᵥ (((P a b x y)ᴴ ⊗ₖ (S.A x a * S.B y b)) *ᵥ S.uvec)).re) ∧
+    ((∀ a b x y, (P a b x y).IsHermitian) →
+      (sumN ao fun a => sumN bo fun b => sumN ai fun x => sumN bi fun y =>
+        (π x y : ℂ) * ((P a b x y)ᴴ * (S.K a b x y).mat).trace).re
+      = sumN ao fun a => sumN bo fun b => sumN ai fun x => sumN bi fun y =>
+        π x y * (star S.uvec ⬝ᵥ ((P a b x y ⊗ₖ (S.A x a * S.B y b)) *ᵥ S.uvec)).re) :=
+  ext_objective_quantum S P π
+
+/-- **NPA ≤ non-signalling (model).**  The assemblage part of every feasible point of the block-valued NPA relaxation — any
+level, any moment matrix — is a feasible point of the program solved by `nonsignaling_value` (`K ⪰ 0`, marginals `σ(a|x)`,
+`ρ(b|y)` independent of the other question, summing to one density operator `τ = ρ`), with the same objective (which only reads
+`K`).  Hence the optimum of `commuting_measurement_value_upper_bound(k)` is at most `nonsignaling_value()` in the model. -/
+theorem ext_npa_le_ns {ρ : Matrix (Fin d) (Fin d) ℂ} (hρ : IsDensity ρ) (psd : Prop) (ao bo ai bi : Nat) (hai : 0 < ai)
+    (hbi : 0 < bi) (R : Nat → Nat → Blk d ρ) (K : Nat → Nat → Nat → Nat → Blk d ρ)
+    (h : ∀ c ∈ assemblageConstrs ao bo ai bi, Sat psd ao bo R K c) :
+    NsBlocksFeasible d ao bo ai bi (fun a b x y => (K a b x y).mat) :=
+  nsBlocksFeasible_of_assemblage_blk hρ psd ao bo ai bi hai hbi R K h
+
+/-- **Level monotonicity with referee blocks (model).**  If the word list of the lower level is a sub-list of the word list of
+the higher level, every feasible point `(R, K)` of the higher level restricts (blocks `R (φ i) (φ j)` for a strictly increasing
+position map `φ`, the SAME `K`, hence the same objective) to a feasible point of the lower level: the bound of a higher level is
+at most the bound of a lower level. -/
+theorem ext_npa_level_mono {ρ : Matrix (Fin d) (Fin d) ℂ} (ao bo ai bi baseLo baseHi : Nat)
+    (confLo confHi : List (Nat × Nat)) (hHi : ConfOK confHi)
+    (hsub : List.Sublist (genWords baseLo confLo ao ai bo bi) (genWords baseHi confHi ao ai bo bi)) :
+    ∃ φ : Nat → Nat, φ 0 = 0 ∧ (∀ i j, i < j → φ i < φ j) ∧
+      (∀ i, i < (genWords baseLo confLo ao ai bo bi).length → φ i < (genWords baseHi confHi ao ai bo bi).length) ∧
+      (∀ i, wordAt (genWords baseLo confLo ao ai bo bi) i = wordAt (genWords baseHi confHi ao ai bo bi) (φ i)) ∧
+      ∀ (R : Nat → Nat → Blk d ρ) (K : Nat → Nat → Nat → Nat → Blk d ρ),
+        (∀ c ∈ npaConstraints ao bo ai bi baseHi confHi,
+          Sat (flatBlk (genWords baseHi confHi ao ai bo bi).length R).PosSemidef ao bo R K c) →
+        ∀ c ∈ npaConstraints ao bo ai bi baseLo confLo,
+          Sat (flatBlk (genWords baseLo confLo ao ai bo bi).length (fun i j => R (φ i) (φ j))).PosSemidef ao bo
+            (fun i j => R (φ i) (φ j)) K c :=
+  ext_npa_level_mono_blk ao bo ai bi baseLo baseHi confLo confHi hHi hsub
+
+/-- **The levels the property names are nested**: a feasible point of level `2` restricts to one of level `'1+ab'`, and one of
+level `'1+ab'` to one of level `1`, with the same assemblage — all alphabet sizes, every referee dimension. -/
+theorem ext_npa_levels_chain {ρ : Matrix (Fin d) (Fin d) ℂ} (ao bo ai bi : Nat) (K : Nat → Nat → Nat → Nat → Blk d ρ) :
+    ((∃ R : Nat → Nat → Blk d ρ, ∀ c ∈ npaConstraints ao bo ai bi 2 [],
+        Sat (flatBlk (genWords 2 [] ao ai bo bi).length R).PosSemidef ao bo R K c) →
+      ∃ R : Nat → Nat → Blk d ρ, ∀ c ∈ npaConstraints ao bo ai bi 1 [(1, 1)],
+        Sat (flatBlk (genWords 1 [(1, 1)] ao ai bo bi).length R).PosSemidef ao bo R K c) ∧
+    ((∃ R : Nat → Nat → Blk d ρ, ∀ c ∈ npaConstraints ao bo ai bi 1 [(1, 1)],
+        Sat (flatBlk (genWords 1 [(1, 1)] ao ai bo bi).length R).PosSemidef ao bo R K c) →
+      ∃ R : Nat → Nat → Blk d ρ, ∀ c ∈ npaConstraints ao bo ai bi 1 [],
+        Sat (flatBlk (genWords 1 [] ao ai bo bi).length R).PosSemidef ao bo R K c) :=
+  ext_npa_levels_chain_blk ao bo ai bi K
+
+/-- **Why the moment blocks carry the adjoint.**  With the "naive" convention `R[i,j] = block of W_i† W_j` the flat matrix is the
+partial transpose (in the referee index) of a Gram matrix and need not be positive semidefinite — there is a two-dimensional
+counterexample; the harness and `ExtQStrategy.R` therefore use `R[i,j][p,q] = ⟨W_j ψ_q, W_i ψ_p⟩`. -/
+theorem ext_moment_blocks_need_adjoint :
+    ∃ (psi : Fin 2 → Fin 2 → ℂ) (W : Nat → Matrix (Fin 2) (Fin 2) ℂ),
+      ¬ (flatBlk (ρ := blockOf psi 1) 2 (fun i j => Blk.of _ (blockOf psi ((W i)ᴴ * W j)))).PosSemidef :=
+  naive_convention_not_psd
+
+end ExtQuantum
+
+/-! ## Parallel repetition of extended games (`ExtendedNonlocalGame(prob_mat, pred_mat, reps)`) -/
+
+section ExtReps
+variable {d d' : Nat}
+
+/-- **Product strategies in the product game.**  `tensorGame G H` mirrors the arrays that `ExtendedNonlocalGame.__init__` stores
+for `reps > 1` (`prob_mat ⊗ prob_mat`, `pred_mat2[:, :, a, b, x, y] = pred[…a₁b₁x₁y₁] ⊗ pred[…a₂b₂x₂y₂]` with big-endian digits of the
+labels; `repGame` iterates it).  For the digit-wise answer functions `f = f₁ ⊗ f₂`, `g = g₁ ⊗ g₂` and the product state `ρ₁ ⊗ ρ₂`:
+the question-averaged operator is `M_{f₁,g₁}(G) ⊗ M_{f₂,g₂}(H)`, `ρ₁ ⊗ ρ₂` is a state, and the value of the product strategy is the
+product of the values.  Hence the unentangled value of the `n`-fold game is at least the `n`-th power of the single-shot value. -/
+theorem ext_reps_product_strategy (G : Game d) (H : Game d') (f₁ g₁ f₂ g₂ : Nat → Nat)
+    (hf₂ : ∀ x, x < H.nX → f₂ x < H.nA) (hg₂ : ∀ y, y < H.nY → g₂ y < H.nB)
+    (ρ₁ : Matrix (Fin d) (Fin d) ℂ) (ρ₂ : Matrix (Fin d') (Fin d') ℂ) (h₁ : IsDensity ρ₁) (h₂ : IsDensity ρ₂) :
+    (avgOperator (tensorGame G H) (prodFn H.nX H.nA f₁ f₂) (prodFn H.nY H.nB g₁ g₂)).toM
+        = flatKron (avgOperator G f₁ g₁).toM (avgOperator H f₂ g₂).toM ∧
+      IsDensity (flatKron ρ₁ ρ₂) ∧
+      ((avgOperator (tensorGame G H) (prodFn H.nX H.nA f₁ f₂) (prodFn H.nY H.nB g₁ g₂)).toM * flatKron ρ₁ ρ₂).trace
+        = ((avgOperator G f₁ g₁).toM * ρ₁).trace * ((avgOperator H f₂ g₂).toM * ρ₂).trace := by
+  have h := toM_avgOperator_tensorGame G H f₁ g₁ f₂ g₂ hf₂ hg₂
+  refine ⟨h, isDensity_flatKron h₁ h₂, ?_⟩
+  rw [h, trace_flatKron_mul]
+
+end ExtReps
+
 /-! ## The checkers accept concrete instances -/
 
 section Examples
@@ -668,6 +1093,15 @@ example : checkHedgeMaxDual 2 2 exQ (r2 #[#[2, 0], #[0, 2]]) z4 = some 4 := by d
 /-- minimum 0 -/
 example : checkHedgeMinPrimal 2 2 exQ exXmin z4 = some 0 := by decide +kernel
 example : checkHedgeMinDual 2 2 exQ (r2 #[#[0, 0], #[0, 0]]) z4 = some 0 := by decide +kernel
+
+/-- the hypotheses of `hedge2_product_bracket` are satisfiable: two copies of `Q = |Φ⟩⟨Φ|` with the certificates above; the
+two-fold maximum for `np.kron(Q, Q)` is therefore exactly `16` -/
+example : ∀ X : Matrix (Fin (4 * 4)) (Fin (4 * 4)) ℂ,
+    HedgeFeasible (X.submatrix (arrangement hedgeSigma2 hedgeSigma2_isSurj) (arrangement hedgeSigma2 hedgeSigma2_isSurj)) →
+      ((kronE exQ exQ).toM * X).trace.re ≤ ((4 : Rat) : ℝ) * ((4 : Rat) : ℝ) :=
+  (hedge2_product_bracket exQ exQ exQ exQ (r2 #[#[2, 0], #[0, 2]]) (r2 #[#[2, 0], #[0, 2]]) z4 z4 z4 z4 z4 z4 4 4 4 4
+    (by decide +kernel) (by decide +kernel) (by decide +kernel) (by decide +kernel) (by decide +kernel)
+    (by decide +kernel)).2.2
 
 end Examples
 
